@@ -3,10 +3,11 @@ passes on generated loops with small constant parameters.
 
 * scf-for-loop-unroll  : induction values of the emitted copies  vs `range` (= `pyRange`) / `trip`
 * scf-for-loop-range-folding : emitted lb/ub/step (const-evaluated)  vs `fold`
-* scf-for-loop-flatten : decision and emitted step / factor           vs `flatten` (the code as it is)
+* scf-for-loop-flatten : decision, emitted step / factor / rounded bound vs `flatten`
 * convert-scf-to-cf    : the lowered CFG run on the real xDSL interpreter vs `cf` (`cfRun`)
-A direct oracle (plain Python iteration of `lb, lb+step, … < ub`) judges unrolling, folding and the
-CFG; flattening is judged by the translation validation of leg (A) (known findings).
+A direct oracle (plain Python iteration of `lb, lb+step, … < ub`) judges unrolling, folding, the
+CFG and (for constant bounds) flattening; flattening with bounds only known at run time is judged by
+the translation validation of leg (A).
 """
 from __future__ import annotations
 
@@ -25,16 +26,18 @@ def module_text(consts: dict[str, int], body: str, sym: bool = False) -> str:
 
 
 def cev(v: Any) -> int | None:
-    """constant value of an SSA value built from arith.constant / addi / muli, else None"""
+    """constant value of an SSA value built from arith.constant / addi / subi / muli / ceildivsi, else None"""
     from xdsl.dialects import arith
 
     o = v.owner
     if isinstance(o, arith.ConstantOp):
         return o.value.value.data
-    if isinstance(o, (arith.AddiOp, arith.MuliOp, arith.SubiOp)):
+    if isinstance(o, (arith.AddiOp, arith.MuliOp, arith.SubiOp, arith.CeilDivSIOp)):
         a, b = cev(o.lhs), cev(o.rhs)
         if a is None or b is None:
             return None
+        if isinstance(o, arith.CeilDivSIOp):
+            return -((-a) // b) if b else None
         return a + b if isinstance(o, arith.AddiOp) else a - b if isinstance(o, arith.SubiOp) else a * b
     return None
 
@@ -113,30 +116,60 @@ def fold_case(op: str, lb: int, ub: int, st: int, c: int | None, two_uses: bool 
     return text, f"fold {b[0]} {b[1]} {b[2]}", b
 
 
-def flatten_case(used: bool, olb: int | None, oub: int, S: int, il: int, iu: int, s: int) -> tuple[str, str]:
+def ub_shape(v: Any, lb: Any, step: Any) -> str:
+    """how the flattened loop's outer bound was obtained (`_whole_steps_ub`): `keep` = the outer loop's own
+    bound, `const v` = a new constant, `arith` = lb + ceildivsi(ub - lb, step) * step as operations"""
     from xdsl.dialects import arith
 
-    consts = {"oub": oub, "S": S, "il": il, "iu": iu, "s": s}
+    o = v.owner
+    if isinstance(o, arith.ConstantOp):
+        return "keep" if v.name_hint == "oub" else f"const {o.value.value.data}"
+    if v.name_hint in ("oub", "sym"):
+        return "keep"
+    if (isinstance(o, arith.AddiOp) and o.lhs is lb and isinstance(m := o.rhs.owner, arith.MuliOp) and m.rhs is step
+            and isinstance(c := m.lhs.owner, arith.CeilDivSIOp) and c.rhs is step
+            and isinstance(d := c.lhs.owner, arith.SubiOp) and d.rhs is lb):
+        return "arith"
+    return "unknown-shape"
+
+
+def flatten_case(used: bool, olb: int | None, oub: int | None, S: int, il: int, iu: int, s: int) -> tuple[str, str, Any]:
+    """(program, implementation line, constant (lb, ub, step) of the flattened loop or None)"""
+    from xdsl.dialects import arith
+
+    consts = {"S": S, "il": il, "iu": iu, "s": s}
     if olb is not None:
         consts["olb"] = olb
+    if oub is not None:
+        consts["oub"] = oub
     ol = "%olb" if olb is not None else "%sym"
+    ou = "%oub" if oub is not None else "%sym"
     inner = ("      %k = arith.addi %o, %i : index\n      func.call @ext_index(%k) : (index) -> ()\n" if used
-             else "      func.call @ext_index(%oub) : (index) -> ()\n")
-    text = module_text(consts, f"  scf.for %o = {ol} to %oub step %S {{\n    scf.for %i = %il to %iu step %s {{\n" + inner + "    }\n  }\n",
-                       sym=olb is None)
+             else "      func.call @ext_index(%S) : (index) -> ()\n")
+    text = module_text(consts, f"  scf.for %o = {ol} to {ou} step %S {{\n    scf.for %i = %il to %iu step %s {{\n" + inner + "    }\n  }\n",
+                       sym=olb is None or oub is None)
     m, exc = apply(text, "scf-for-loop-flatten")
     if m is None:
-        return text, "raise " + str(exc)
+        return text, "raise " + str(exc), None
     fs = for_ops(m)
     if len(fs) == 2:
-        return text, "no"
+        return text, "no", None
     f = fs[0]
+    b = (cev(f.lb), cev(f.ub), cev(f.step))
+    b = None if any(x is None for x in b) else b
     if used:
-        return text, f"fuse {cev(f.step)}"
+        return text, f"fuse {cev(f.step)} {ub_shape(f.ub, f.lb, fs_step(m))}", b
     u = f.ub.owner
     if isinstance(u, arith.MuliOp):
-        return text, f"prod {cev(u.rhs)}"
-    return text, "flattened-unknown-shape"
+        return text, f"prod {cev(u.rhs)} {ub_shape(u.lhs, f.lb, f.step)}", b
+    return text, "flattened-unknown-shape", b
+
+
+def fs_step(m: Any) -> Any:
+    """the SSA value of the outer step constant `%S` of a flatten_case program"""
+    from xdsl.dialects import arith
+
+    return next(o.result for o in m.walk() if isinstance(o, arith.ConstantOp) and o.result.name_hint == "S")
 
 
 def cf_case(lb: int, ub: int, st: int) -> tuple[str, str]:
@@ -291,18 +324,34 @@ def run_models(ctx: core.Ctx) -> None:
                          {"program": text, "passes": ["scf-for-loop-range-folding"]},
                          f"body saw {src} before; folded loop {b} enumerates {tgt}", impl, src)
 
-    # -- flattening (decision of the code as it is) --------------------------------------------------
+    # -- flattening: decision, emitted step / factor / bound, and the iteration sequence ------------------
+    SITE_FLATTEN = "xdsl.transforms.scf_for_loop_flatten.FlattenNestedLoopsPattern.match_and_rewrite"
     lcases = []
-    for used, olb, S, il, s in itertools.product([True, False], [0, 1, None], [1, 2, 4, 6], [0, 1], [0, 1, 2, 3]):
+    for used, olb, oub, S, il, s in itertools.product([True, False], [0, 1, None], [5, 8, -1, None], [1, 2, 4, 6], [0, 1], [0, 1, 2, 3]):
         for iu in sorted({S, 0, 3, 8, -2}):
-            lcases.append((used, olb, 5, S, il, iu, s))
-    for used, olb, oub, S, il, iu, s in pick(ctx, lcases, 160):
-        text, impl = flatten_case(used, olb, oub, S, il, iu, s)
+            lcases.append((used, olb, oub, S, il, iu, s))
+    for used, olb, oub, S, il, iu, s in pick(ctx, lcases, 220):
+        text, impl, b = flatten_case(used, olb, oub, S, il, iu, s)
         ctx.ev(); ctx.count("model.flatten." + ("used" if used else "unused"))
         if impl != "no":
-            ctx.nt(("flatten", used, olb, S, il, iu, s))
-        lines.append(f"flatten {'used' if used else 'unused'} {'sym' if olb is None else olb} {S} {il} {iu} {s}")
+            ctx.nt(("flatten", used, olb, oub, S, il, iu, s))
+        lines.append(f"flatten {'used' if used else 'unused'} {'sym' if olb is None else olb} {'sym' if oub is None else oub} {S} {il} {iu} {s}")
         expect.append(("flatten", (used, olb, oub, S, il, iu, s), text, impl))
+        if b is not None and olb is not None and oub is not None and s > 0 and b[2] > 0:
+            # direct oracle (constant bounds): the flattened loop makes the calls of the nest
+            if used:
+                src = [o + i for o in ref_range(olb, oub, S) for i in ref_range(il, iu, s)]
+                tgt = ref_range(*b)
+            else:
+                src = [S] * (len(ref_range(olb, oub, S)) * len(ref_range(il, iu, s)))
+                tgt = [S] * len(ref_range(*b))
+            if src != tgt:
+                ctx.fail(SITE_FLATTEN, "flattened loop visits a different iteration sequence "
+                         + ("[induction variables summed: (ub-lb) not a multiple of the outer step]" if used
+                            else "[induction variables unused: trip count of the product loop]"),
+                         {"program": text, "passes": ["scf-for-loop-flatten"], "arg_types": [], "args": []},
+                         f"the nest {olb}..{oub} step {S} around {il}..{iu} step {s} calls @ext_index with {src}; "
+                         f"the flattened loop {b} with {tgt}", impl, src)
 
     # -- scf.for → cf ------------------------------------------------------------------------------
     ccases = list(itertools.product([-2, 0, 1, 3], [-3, 0, 1, 4, 6], [1, 2, 3]))
@@ -359,7 +408,7 @@ def run_models(ctx: core.Ctx) -> None:
                          f"real pass and Lean model `loops` disagree on `{line}`")
     ctx.extra["model_correspondence"] = {"lines": len(lines),
                                          "scope": "unroll: lb∈[-2,3], ub∈[-3,5], step∈[-2,4]; fold: op×lb×ub×step×c (c incl. 0, negatives, symbolic); "
-                                                  "flatten: used×outer-lb(0,1,symbolic)×S×il×iu×s (s incl. 0); cf: lb×ub×step"
+                                                  "flatten: used×outer-lb(0,1,symbolic)×outer-ub(5,8,-1,symbolic)×S×il×iu×s (s incl. 0); cf: lb×ub×step"
                                                   + (" — all combinations" if ctx.tier != "quick" else " — seeded sample")}
     if ctx.tier != "quick":
         ctx.exhaustive = True
